@@ -24,37 +24,24 @@ def extract(ctx):
     sliced.append('%s:%d cancel_group_execution' % (TG, s.line))
     t = rw.sub(s.text, r'bool task_group_context_impl::cancel_group_execution\(d1::task_group_context& ctx\)', 'bool cancel_group_execution(struct tgc* ctx)', 1, 1, name='sig')
     t = rw.sub(t, r'__TBB_ASSERT\(!is_poisoned\(ctx\.my_context_list\), nullptr\);', 'RG_NOP();', 1, 1, name='poison check -> RG_NOP')
-    t = rw.sub(t, r'\bctx\.', 'ctx->', 3, name='ref-param')
-    t = rw.atomics(t, ['my_cancellation_requested'], 3)
-    t = rw.sub(t, r'governor::get_thread_data\(\)->my_arena->my_threading_control->propagate_task_group_state\(&d1::task_group_context::my_cancellation_requested, ctx, uint32_t\(1\)\);', 'STUB_propagate(ctx, 1);', 1, 1, name='callee stub')
+    t = rw.sub(t, r'\bctx\.', 'ctx->', 1, name='ref-param')
+    t = rw.atomics(t, ['my_cancellation_requested'], 1)
+    t = rw.sub(t, r'governor::get_thread_data\(\)->my_arena->my_threading_control->propagate_task_group_state\(&d1::task_group_context::my_cancellation_requested, (\w+), uint32_t\((\w+)\)\);', r'STUB_propagate(\1, \2);', 0, None, name='callee stub (threading_control::propagate_task_group_state: forwarders proved in walk.forwarders)')
     t = rw.asserts(t, 1)
     t = rw.number_sites(t, 'cancel', by_kind=True)
     out.append(t)
-    s = slice_block(TG, r'void task_group_context_impl::propagate_task_group_state\(d1::task_group_context& ctx,')
-    sliced.append('%s:%d propagate_task_group_state' % (TG, s.line))
-    t = rw.sub(s.text, r'void task_group_context_impl::propagate_task_group_state\(d1::task_group_context& ctx, std::atomic<std::uint32_t> d1::task_group_context::\* mptr_state, d1::task_group_context& src, std::uint32_t new_state\)',
-               'void propagate_task_group_state(struct tgc* ctx, struct tgc* src, uint32_t new_state)', 1, 1, name='sig (member pointer bound to my_cancellation_requested)')
-    t = rw.sub(t, r'__TBB_ASSERT\(!is_poisoned\(ctx\.my_context_list\), nullptr\);', 'RG_NOP();', 1, 1, name='poison check -> RG_NOP')
-    t = rw.sub(t, r'\(ctx\.\*mptr_state\)\.load\(std::memory_order_relaxed\)', 'P_LOAD(ctx->my_cancellation_requested)', 1, 1, name='member-pointer load')
-    t = rw.sub(t, r'\(c->\*mptr_state\)\.store\(new_state, std::memory_order_relaxed\);', 'P_STORE(c, new_state);', 1, 1, name='member-pointer store')
-    t = rw.sub(t, r'&ctx\b', 'ctx', 2, name='ref-param')
-    t = rw.sub(t, r'&src\b', 'src', 2, name='ref-param')
-    t = rw.sub(t, r'\bctx\.my_parent', 'ctx->my_parent', 1, 1, name='ref-param')
-    t = rw.sub(t, r'd1::task_group_context\*', 'struct tgc*', 2, name='ns-strip')
-    t = rw.std(t)
-    t = tag_loops(t, 'prop', rw, expect=2)
-    out.append(t)
+    extract_prop(ctx, sliced, fired)
     s = slice_block(TG, r'void task_group_context_impl::bind_to_impl\(d1::task_group_context& ctx, thread_data\* td\)')
     sliced.append('%s:%d bind_to_impl' % (TG, s.line))
     t = rw.sub(s.text, r'void task_group_context_impl::bind_to_impl\(d1::task_group_context& ctx, thread_data\* td\)', 'void bind_to_impl(struct tgc* ctx, struct thread_data* td)', 1, 1, name='sig')
     t = rw.sub(t, r'__TBB_ASSERT\(!is_poisoned\(ctx\.my_context_list\), nullptr\);', 'RG_NOP();', 1, 1, name='poison check -> RG_NOP')
     t = rw.sub(t, r'\*ctx\.my_parent', '*ctx->my_parent', 0, name='ref-param')
-    t = rw.sub(t, r'\bctx\.', 'ctx->', 10, name='ref-param')
+    t = rw.sub(t, r'\bctx\.', 'ctx->', 1, name='ref-param')
     t = rw.sub(t, r'td->my_task_dispatcher->m_execute_data_ext\.context', 'td->current_context', 1, 1, name='field path')
     t = rw.sub(t, r'copy_fp_settings\(ctx, \*ctx->my_parent\);', 'STUB_copy_fp_settings(ctx, ctx->my_parent);', 1, 1, name='callee stub')
-    t = rw.sub(t, r'd1::task_group_context::may_have_children', 'may_have_children', 2, name='enum scope')
-    t = rw.sub(t, r'd1::task_group_context::state::locked', 'state_locked', 1, name='enum scope')
-    t = rw.sub(t, r'register_with\(ctx, td\);', 'STUB_register_with(ctx, td);', 2, 2, name='callee stub (makes the context reachable by propagators)')
+    t = rw.sub(t, r'd1::task_group_context::may_have_children', 'may_have_children', 0, name='enum scope')
+    t = rw.sub(t, r'd1::task_group_context::state::locked', 'state_locked', 0, name='enum scope')
+    t = rw.sub(t, r'register_with\(ctx, td\);', 'STUB_register_with(ctx, td);', 0, None, name='callee stub (makes the context reachable by propagators)')
     mb = re.findall(r'\w+::scoped_lock \w+\(([^)]*)\);', t)
     t = rw.scoped_locks(t, r'\w+::scoped_lock \w+\(([^)]*)\);', 0, None)
     ctx.binder_mutexes = [x.strip() for x in mb]
@@ -67,13 +54,11 @@ def extract(ctx):
     sliced.append('%s:%d register_with' % (TG, s.line))
     t = rw.sub(s.text, r'void task_group_context_impl::register_with\(d1::task_group_context& ctx, thread_data\* td\)', 'void register_with(struct tgc* ctx, struct thread_data* td)', 1, 1, name='sig')
     t = rw.sub(t, r'__TBB_ASSERT\(!is_poisoned\(ctx\.my_context_list\), nullptr\);', 'RG_NOP();', 1, 1, name='poison check -> RG_NOP')
-    t = rw.sub(t, r'\bctx\.', 'ctx->', 2, name='ref-param')
-    t = rw.sub(t, r'ctx->my_context_list->push_front\(ctx->my_node\);', 'LIST_PUSH_FRONT(ctx->my_context_list, ctx);', 0, None, name='context_list::push_front (locks the list mutex: checked textually) -> one atomic list insertion')
+    t = rw.sub(t, r'\bctx\.', 'ctx->', 0, None, name='ref-param')
+    t = rw.sub(t, r'(\w+(?:->\w+)*)->push_front\(ctx->my_node\);', r'LIST_PUSH_FRONT(\1, ctx);', 0, None, name='context_list::push_front -> one atomic list insertion (real code: jobs registry.list.push_front, registry.register_with)')
     t = rw.asserts(t, 1)
     t = rw.std(t)
     out.insert(0, t)
-    if not re.search(r'void push_front\(d1::intrusive_list_node& val\) \{\s*mutex::scoped_lock lock\(m_mutex\);\s*intrusive_list<d1::intrusive_list_node>::push_front\(val\);\s*\}', load('src/tbb/thread_data.h')):
-        raise ExtractionBreak('context_list::push_front no longer inserts under m_mutex')
     s = slice_block(TG, r'void task_group_context_impl::bind_to\(d1::task_group_context& ctx, thread_data\* td\)')
     sliced.append('%s:%d bind_to' % (TG, s.line))
     t = cxx2c.cpp_resolve(s.text, {'__INTEL_COMPILER': None}, 'bind_to')
@@ -81,15 +66,15 @@ def extract(ctx):
     t = rw.sub(t, r'\*td->my_arena->my_default_ctx', 'td->default_ctx', 1, 1, name='field path')
     t = rw.sub(t, r'td->my_arena->my_default_ctx', 'td->default_ctx', 1, 1, name='field path')
     t = rw.sub(t, r'td->my_task_dispatcher->m_execute_data_ext\.context', 'td->current_context', 2, 2, name='field path')
-    t = rw.sub(t, r'\bctx\.', 'ctx->', 8, name='ref-param')
+    t = rw.sub(t, r'\bctx\.', 'ctx->', 1, name='ref-param')
     t = rw.sub(t, r'd1::task_group_context::state (\w+)', r'int \1', 2, 2, name='enum type')
-    t = rw.sub(t, r'd1::task_group_context::state::(\w+)', r'state_\1', 6, name='enum scope')
+    t = rw.sub(t, r'd1::task_group_context::state::(\w+)', r'state_\1', 0, name='enum scope')
     t = rw.sub(t, r'int release_state\{\};', 'int release_state = 0;', 1, 1, name='brace-init')
     t = rw.sub(t, r'copy_fp_settings\(ctx, td->default_ctx\);', 'STUB_copy_fp_settings(ctx, td->default_ctx);', 1, 1, name='callee stub')
     t = rw.sub(t, r'ITT_STACK_CREATE\(ctx->my_itt_caller\);', 'RG_NOP();', 1, 1, name='itt -> RG_NOP')
     t = rw.sub(t, r'spin_wait_while_eq\(ctx->my_state, state_locked\);', 'SPIN_WAIT_WHILE_EQ(ctx->my_state, state_locked);', 1, 1, name='spin-wait')
     t = rw.sub(t, r'bind_to_impl\(ctx, td\);', 'STUB_bind_to_impl(ctx, td);', 1, 1, name='callee stub (proved separately)')
-    t = rw.atomics(t, ['my_state'], 5)
+    t = rw.atomics(t, ['my_state'], 2)
     t = rw.asserts(t, 3)
     t = rw.std(t)
     t = rw.number_sites(t, 'bt', by_kind=True)
@@ -97,7 +82,167 @@ def extract(ctx):
     common.write(ctx, 'tgc.inc', '\n'.join(out) + '\n')
     fired['task_group_context'] = rw.fired
     extract_walk(ctx, sliced, fired)
+    extract_registry(ctx, sliced, fired)
     return sliced, fired
+
+
+def extract_prop(ctx, sliced, fired):
+    """task_group_context_impl::propagate_task_group_state -> prop.inc.  Contexts are only touched through accessors (TGC_PARENT, P_LOAD_STATE, P_STORE) so that the
+    ancestor chain can be an index sequence of symbolic length (job propagate.path.any_depth) or real structs (bounded cross-check propagate.path)."""
+    rw = Rewriter('propagate_path')
+    s = slice_block(TG, r'void task_group_context_impl::propagate_task_group_state\(d1::task_group_context& ctx,')
+    sliced.append('%s:%d propagate_task_group_state' % (TG, s.line))
+    t = rw.sub(s.text, r'void task_group_context_impl::propagate_task_group_state\(d1::task_group_context& ctx, std::atomic<std::uint32_t> d1::task_group_context::\* mptr_state, d1::task_group_context& src, std::uint32_t new_state\)',
+               'void propagate_task_group_state(struct tgc* ctx, struct tgc* src, uint32_t new_state)', 1, 1, name='sig (member pointer bound to my_cancellation_requested)')
+    t = rw.sub(t, r'__TBB_ASSERT\(!is_poisoned\(ctx\.my_context_list\), nullptr\);', 'RG_NOP();', 1, 1, name='poison check -> RG_NOP')
+    t = rw.sub(t, r'\((\w+)\.\*mptr_state\)\.load\(std::memory_order_relaxed\)', r'P_LOAD_STATE(&\1)', 0, None, name='member-pointer load (reference)')
+    t = rw.sub(t, r'\((\w+)->\*mptr_state\)\.load\(std::memory_order_relaxed\)', r'P_LOAD_STATE(\1)', 0, None, name='member-pointer load (pointer)')
+    t = rw.sub(t, r'\((\w+)->\*mptr_state\)\.store\(([^;]*), std::memory_order_relaxed\);', r'P_STORE(\1, \2);', 0, None, name='member-pointer store (pointer)')
+    t = rw.sub(t, r'\((\w+)\.\*mptr_state\)\.store\(([^;]*), std::memory_order_relaxed\);', r'P_STORE(&\1, \2);', 0, None, name='member-pointer store (reference)')
+    t = rw.sub(t, r'\b(ctx|src)\.my_parent\b', r'TGC_PARENT(&\1)', 0, None, name='ref-param parent link -> accessor')
+    t = rw.sub(t, r'\b(\w+)->my_parent\b', r'TGC_PARENT(\1)', 0, None, name='parent link -> accessor')
+    t = rw.sub(t, r'&(ctx|src)\b', r'\1', 2, name='ref-param')
+    t = rw.sub(t, r'd1::task_group_context\*', 'struct tgc*', 0, None, name='ns-strip')
+    t = rw.std(t)
+    if re.search(r'mptr_state|\b(ctx|src)\.', t):
+        raise ExtractionBreak('propagate_task_group_state: an access to a context is not covered by the accessor rules: %r' % re.findall(r'[^\n]*(?:mptr_state|\b(?:ctx|src)\.)[^\n]*', t)[:2])
+    t = tag_loops(t, 'prop', rw, names=[(r'\*\s*ancestor\s*=', 'anc'), (r'\*\s*c\s*=', 'paint')])
+    common.write(ctx, 'prop.inc', t + '\n')
+    fired['propagate_path'] = rw.fired
+
+
+IL = 'src/tbb/intrusive_list.h'
+TC = 'src/tbb/threading_control.cpp'
+GOV = 'src/tbb/governor.cpp'
+CLIST = r'class context_list : public intrusive_list<d1::intrusive_list_node>'
+ILBASE = r'class intrusive_list_base\b'
+
+
+def raii_lock(rw, t, self_fields):
+    """`T::scoped_lock name(mutex);` ... `name.release();` -> SLOCK_ACQUIRE(mutex) at the declaration, SLOCK_RELEASE(mutex) at the explicit release and SLOCK_SCOPE_EXIT(mutex) at
+    every exit of the scope (the destructor of a scoped_lock unlocks only if it still owns the mutex: that is what SLOCK_SCOPE_EXIT does in the harness).
+    Returns (text, [mutex expressions])."""
+    decls = re.findall(r'\w+::scoped_lock (\w+)\(([^)]*)\);', t)
+    for var, mu in decls:
+        t = rw.sub(t, r'\b%s\.release\(\);' % re.escape(var), 'SLOCK_RELEASE(%s);' % mu.strip(), 0, None, name='scoped_lock::release() -> SLOCK_RELEASE(mutex of that lock)')
+    t = rw.scoped_locks(t, r'\w+::scoped_lock \w+\(([^)]*)\);', 0, None, lock='SLOCK_ACQUIRE', unlock='SLOCK_SCOPE_EXIT')
+    return t, [mu.strip() for _, mu in decls]
+
+
+def extract_registry(ctx, sliced, fired):
+    """the per-thread context list: context_list::{destroy,remove,push_front,orphan}, intrusive_list_base::{push_front,remove,empty,assert_ok},
+    task_group_context_impl::{register_with,destroy,initialize,reset,is_group_execution_cancelled}"""
+    rw = Rewriter('registry')
+    out = []
+    ctx.list_mutexes = {}
+    # ---- context_list ----
+    def member(sig, cname, params):
+        s = slice_block(TDH, sig, within=CLIST)
+        sliced.append('%s:%d context_list::%s' % (TDH, s.line, cname))
+        return rw.sub(s.text, sig, 'void clist_%s(struct clist* self%s)' % (cname, params), 1, 1, name='sig')
+    t = member(r'void destroy\(\)', 'destroy', '')
+    t = rw.sub(t, r'this->~context_list\(\);', 'CLIST_DTOR(self);', 0, None, name='destructor call')
+    t = rw.sub(t, r'cache_aligned_deallocate\(this\);', 'STUB_cache_aligned_deallocate(self);', 0, None, name='deallocation -> stub (frees the harness object)')
+    out.append(t)
+    for nm, sig, params in (('remove', r'void remove\(d1::intrusive_list_node& val\)', ', struct ilnode* val'),
+                            ('push_front', r'void push_front\(d1::intrusive_list_node& val\)', ', struct ilnode* val'),
+                            ('orphan', r'void orphan\(\)', '')):
+        t = member(sig, nm, params)
+        t = rw.sub(t, r'intrusive_list<d1::intrusive_list_node>::(remove|push_front)\(val\);', lambda m: 'ILIST_%s(self, val);' % m.group(1).upper(), 0, None, name='base-class list operation -> contract stub (proved on real nodes in registry.ilist.*)')
+        t = rw.sub(t, r'(?<![\w.>])empty\(\)', 'ILIST_EMPTY(self)', 0, None, name='base-class empty()')
+        t = rw.sub(t, r'(?<![\w.>])destroy\(\);', 'clist_destroy(self);', 0, None, name='method')
+        t, mus = raii_lock(rw, t, None)
+        ctx.list_mutexes[nm] = mus
+        t = rw.sub(t, r'(?<![\w.>])(orphaned|m_mutex|epoch)\b', r'self->\1', 0, None, name='field')
+        t = rw.std(t)
+        out.append(t)
+    common.write(ctx, 'clist.inc', '\n'.join(out) + '\n')
+    # ---- intrusive_list_base on real nodes ----
+    out = []
+    for nm, sig, csig in (('assert_ok', r'void assert_ok \(\) const', 'void ilist_assert_ok(struct ilist* self)'),
+                          ('empty', r'bool empty \(\) const', 'bool ilist_empty(struct ilist* self)'),
+                          ('push_front', r'void push_front \( T& val \)', 'void ilist_push_front(struct ilist* self, struct ilnode* val)'),
+                          ('remove', r'void remove\( T& val \)', 'void ilist_remove(struct ilist* self, struct ilnode* val)')):
+        s = slice_block(IL, sig, within=ILBASE)
+        sliced.append('%s:%d intrusive_list_base::%s' % (IL, s.line, nm))
+        t = cxx2c.cpp_resolve(s.text, {'TBB_USE_ASSERT': 0}, 'intrusive_list_base::' + nm)
+        t = rw.sub(t, sig, csig, 1, 1, name='sig')
+        t = rw.sub(t, r'&node\(val\)', 'NODE(val)', 0, None, name='node(val) is the item itself (T derives from / is intrusive_list_node)')
+        t = rw.sub(t, r'\bnode\(val\)\.', 'NODE(val)->', 0, None, name='node(val) is the item itself (T derives from / is intrusive_list_node)')
+        t = rw.sub(t, r'(?<![\w.>])assert_ok\(\);', 'ilist_assert_ok(self);', 0, None, name='method')
+        t = rw.sub(t, r'(?<![\w.>])(my_head|my_size)\b', r'self->\1', 0, None, name='field')
+        t = rw.asserts(t, 0)
+        t = rw.std(t)
+        t = re.sub(r'\)\s*const\s*\{', ') {', t)
+        out.append(t)
+    common.write(ctx, 'ilist.inc', '\n'.join(out) + '\n')
+    # ---- task_group_context_impl ----
+    out = []
+    s = slice_block(TG, r'void task_group_context_impl::register_with\(d1::task_group_context& ctx, thread_data\* td\)')
+    sliced.append('%s:%d register_with (registry)' % (TG, s.line))
+    t = rw.sub(s.text, r'void task_group_context_impl::register_with\(d1::task_group_context& ctx, thread_data\* td\)', 'void register_with(struct tgc* ctx, struct thread_data* td)', 1, 1, name='sig')
+    t = rw.sub(t, r'__TBB_ASSERT\(!is_poisoned\(ctx\.my_context_list\), nullptr\);', 'RG_NOP();', 1, 1, name='poison check -> RG_NOP')
+    t = rw.sub(t, r'\bctx\.', 'ctx->', 0, None, name='ref-param')
+    t = rw.sub(t, r'(\w+(?:->\w+)*)->push_front\((\w+)->my_node\);', r'clist_push_front(\1, &\2->my_node);', 0, None, name='context_list::push_front (real code, clist.inc)')
+    t = rw.asserts(t, 0)
+    t = rw.std(t)
+    out.append(t)
+    s = slice_block(TG, r'void task_group_context_impl::destroy\(d1::task_group_context& ctx\)')
+    sliced.append('%s:%d task_group_context_impl::destroy' % (TG, s.line))
+    t = cxx2c.cpp_resolve(s.text, {'_MSC_VER': None, '__INTEL_COMPILER': None}, 'task_group_context_impl::destroy')
+    t = rw.sub(t, r'void task_group_context_impl::destroy\(d1::task_group_context& ctx\)', 'void tgc_destroy(struct tgc* ctx)', 1, 1, name='sig')
+    t = rw.sub(t, r'__TBB_ASSERT\(!is_poisoned\(ctx\.my_context_list\), nullptr\);', 'RG_NOP();', 1, 1, name='poison check -> RG_NOP')
+    t = rw.sub(t, r'\bctx\.', 'ctx->', 0, None, name='ref-param')
+    t = rw.sub(t, r'(\w+(?:->\w+)*)->remove\((\w+)->my_node\);', r'clist_remove(\1, &\2->my_node);', 0, None, name='context_list::remove (real code, clist.inc)')
+    t = rw.sub(t, r'd1::cpu_ctl_env\* ctl = reinterpret_cast<d1::cpu_ctl_env\*>\(&ctx->my_cpu_ctl_env\);', 'RG_NOP();', 1, 1, name='fp env pointer -> RG_NOP')
+    t = rw.sub(t, r'ctl->~cpu_ctl_env\(\);', 'STUB_cpu_ctl_env_dtor(ctx);', 0, None, name='fp env destructor -> stub')
+    t = rw.sub(t, r'auto exception = ', 'struct eptr* exception = ', 1, 1, name='auto')
+    t = rw.sub(t, r'exception->destroy\(\);', 'STUB_exception_destroy(exception);', 0, None, name='callee stub')
+    t = rw.sub(t, r'ITT_STACK_DESTROY\(ctx->my_itt_caller\);', 'RG_NOP();', 0, None, name='itt -> RG_NOP')
+    t = rw.sub(t, r'poison_pointer\(([^;]*)\);', r'POISON_POINTER(\1);', 0, None, name='poison_pointer (no-op in the tested build) -> hook')
+    t = rw.sub(t, r'd1::task_group_context::state::(\w+)', r'state_\1', 0, None, name='enum scope')
+    t = rw.atomics(t, ['my_state', 'my_exception'], 0)
+    t = rw.asserts(t, 0)
+    t = rw.std(t)
+    t = rw.number_sites(t, 'dtor', by_kind=True)
+    out.append(t)
+    s = slice_block(TG, r'void task_group_context_impl::initialize\(d1::task_group_context& ctx\)')
+    sliced.append('%s:%d task_group_context_impl::initialize' % (TG, s.line))
+    t = rw.sub(s.text, r'void task_group_context_impl::initialize\(d1::task_group_context& ctx\)', 'void tgc_initialize(struct tgc* ctx)', 1, 1, name='sig')
+    t = rw.sub(t, r'ITT_TASK_GROUP\(&ctx, ctx\.my_name, nullptr\);', 'RG_NOP();', 1, 1, name='itt -> RG_NOP')
+    t = rw.sub(t, r'static_assert\([^;]*;', 'RG_NOP();', 0, None, name='static_assert -> RG_NOP')
+    t = rw.sub(t, r'd1::cpu_ctl_env\* ctl = new \(&ctx\.my_cpu_ctl_env\) d1::cpu_ctl_env;', 'RG_NOP();', 1, 1, name='fp env placement new -> RG_NOP')
+    t = rw.sub(t, r'ctl->get_env\(\);', 'STUB_get_env(ctx);', 0, None, name='callee stub')
+    t = rw.sub(t, r'&ctx\.my_node\b', '&ctx->my_node', 0, None, name='ref-param')
+    t = rw.sub(t, r'\bctx\.', 'ctx->', 0, None, name='ref-param')
+    t = rw.sub(t, r'd1::task_group_context::state::(\w+)', r'state_\1', 0, None, name='enum scope')
+    t = rw.sub(t, r'(ctx->my_cancellation_requested) = ([^;]*);', r'ATOMIC_STORE(\1, \2);', 0, None, name='atomic assignment')
+    t = rw.atomics(t, ['my_state', 'my_exception', 'my_may_have_children'], 0)
+    t = rw.std(t)
+    t = rw.number_sites(t, 'init', by_kind=True)
+    out.append(t)
+    s = slice_block(TG, r'void task_group_context_impl::reset\(d1::task_group_context& ctx\)')
+    sliced.append('%s:%d task_group_context_impl::reset' % (TG, s.line))
+    t = rw.sub(s.text, r'void task_group_context_impl::reset\(d1::task_group_context& ctx\)', 'void tgc_reset(struct tgc* ctx)', 1, 1, name='sig')
+    t = rw.sub(t, r'__TBB_ASSERT\(!is_poisoned\(ctx\.my_context_list\), nullptr\);', 'RG_NOP();', 1, 1, name='poison check -> RG_NOP')
+    t = rw.sub(t, r'\bctx\.', 'ctx->', 0, None, name='ref-param')
+    t = rw.sub(t, r'auto exception = ', 'struct eptr* exception = ', 1, 1, name='auto')
+    t = rw.sub(t, r'exception->destroy\(\);', 'STUB_exception_destroy(exception);', 0, None, name='callee stub')
+    t = rw.sub(t, r'(ctx->my_cancellation_requested) = ([^;]*);', r'ATOMIC_STORE(\1, \2);', 0, None, name='atomic assignment')
+    t = rw.atomics(t, ['my_exception'], 0)
+    t = rw.std(t)
+    t = rw.number_sites(t, 'reset', by_kind=True)
+    out.append(t)
+    s = slice_block(TG, r'bool task_group_context_impl::is_group_execution_cancelled\(const d1::task_group_context& ctx\)')
+    sliced.append('%s:%d task_group_context_impl::is_group_execution_cancelled' % (TG, s.line))
+    t = rw.sub(s.text, r'bool task_group_context_impl::is_group_execution_cancelled\(const d1::task_group_context& ctx\)', 'bool tgc_is_cancelled(struct tgc* ctx)', 1, 1, name='sig')
+    t = rw.sub(t, r'\bctx\.', 'ctx->', 0, None, name='ref-param')
+    t = rw.atomics(t, ['my_cancellation_requested'], 0)
+    t = rw.std(t)
+    t = rw.number_sites(t, 'isc', by_kind=True)
+    out.append(t)
+    common.write(ctx, 'tgcl.inc', '\n'.join(out) + '\n')
+    fired['registry'] = rw.fired
 
 
 CD = 'src/tbb/cancellation_disseminator.h'
@@ -116,7 +261,7 @@ def extract_walk(ctx, sliced, fired):
     t = rw.scoped_locks(t, r'\w+::scoped_lock \w+\(([^)]*)\);', 0, None)
     t = rw.sub(t, r'\(src\.\*mptr_state\)\.load\(std::memory_order_relaxed\)', 'P_LOAD(src->my_cancellation_requested)', 1, 1, name='member-pointer load')
     t = rw.sub(t, r'\bsrc\.', 'src->', 1, name='ref-param')
-    t = rw.sub(t, r'd1::task_group_context::may_have_children', 'may_have_children', 1, name='enum scope')
+    t = rw.sub(t, r'd1::task_group_context::may_have_children', 'may_have_children', 0, name='enum scope')
     t = rw.sub(t, r'\+\+the_context_state_propagation_epoch;', 'ATOMIC_PREINC(the_context_state_propagation_epoch);', 0, None, name='atomic ++ (global epoch)')
     t = rw.sub(t, r'for \(auto& thr_data : my_threads_list\) \{', 'for (size_t it_ = 0; it_ < LIST_SIZE(my_threads_list); ++it_) { struct thread_data* thr_data = LIST_AT(my_threads_list, it_);', 1, 1, name='range-for over intrusive_list -> indexed loop over its sequence')
     t = rw.sub(t, r'thr_data\.propagate_task_group_state\(mptr_state, src, new_state\);', 'td_propagate(thr_data, src, new_state);', 1, 1, name='method')
@@ -152,6 +297,10 @@ def build(ctx):
         Job('cancel.one_winner', C, 'h_cancel', route='RG', defines=['CANCEL'], target='task_group_context_impl::cancel_group_execution', source=TG),
         Job('propagate.path', C, 'h_propagate', route='BD', bound_text='context trees of depth <= %d (ancestor chain walk unwound)' % d, defines=['PROP', 'DEPTH=%d' % d], unwind=d + 3, timeout=600,
             target='task_group_context_impl::propagate_task_group_state', source=TG),
+        Job('propagate.path.any_depth.ancestor', C, 'h_propagate_any', route='LC', loops=True, nloops=2, defines=['PROPU', 'SRC_ANCESTOR'], timeout=400, inputs=['IN_n', 'IN_s', 'IN_k', 'IN_ns', 'IN_st0'],
+            target='task_group_context_impl::propagate_task_group_state, ancestor chains of any length, the source is a proper ancestor of ctx', source=TG),
+        Job('propagate.path.any_depth.other', C, 'h_propagate_any', route='LC', loops=True, nloops=2, defines=['PROPU'], timeout=400, inputs=['IN_n', 'IN_s', 'IN_k', 'IN_ns', 'IN_st0'],
+            target='task_group_context_impl::propagate_task_group_state, ancestor chains of any length, the source is ctx itself or not on its chain', source=TG),
         Job('bind.no_missed_cancel.atomic_copy', C, 'h_bind_impl', route='RG', defines=['BINDIMPL', 'ATOMIC_COPY'], target='task_group_context_impl::bind_to_impl (parent without grand-ancestor) against a concurrent canceller of the parent; the final state copy taken as one atomic step', source=TG),
         Job('bind.no_missed_cancel.real', C, 'h_bind_impl', route='RG', defines=['BINDIMPL'], target='task_group_context_impl::bind_to_impl, the state copy as the separate load and store it is', source=TG),
         Job('walk.disseminator', C, 'h_dissem', route='LC', loops=True, nloops=1, defines=['DISSEM', 'BINDER_SLOW_MUTEX=' + (ctx.binder_mutexes[0] if ctx.binder_mutexes else '0')],
@@ -159,6 +308,16 @@ def build(ctx):
         Job('walk.thread_list', C, 'h_tdwalk', route='LC', loops=True, nloops=1, defines=['TDWALK'], target='thread_data::propagate_task_group_state (any list length)', source=TDH),
         Job('bind.grand_ancestor', C, 'h_bind_ga', route='RG', defines=['BINDGA', 'PROP_HOLDS_BINDER_MUTEX=%d' % (1 if ctx.binder_mutexes and ctx.binder_mutexes[0] in ctx.propagator_mutexes else 0)], unwind=8,
             target='task_group_context_impl::bind_to_impl + register_with (parent with a grand-ancestor) against one concurrent propagation', source=TG),
+        Job('registry.ilist.push_front', C, 'h_ilist_push_front', route='LF', defines=['ILIST'], target='intrusive_list_base::push_front + assert_ok (real nodes, window of the list)', source=IL),
+        Job('registry.ilist.remove', C, 'h_ilist_remove', route='LF', defines=['ILIST'], target='intrusive_list_base::remove + assert_ok (real nodes, window of the list)', source=IL),
+        Job('registry.ilist.empty', C, 'h_ilist_empty', route='LF', defines=['ILIST'], target='intrusive_list_base::empty', source=IL),
+        Job('registry.list.remove', C, 'h_clist_remove', route='LF', defines=['REGISTRY'], target='context_list::remove + destroy (orphaned-list protocol: the last one out frees the list)', source=TDH),
+        Job('registry.list.orphan', C, 'h_clist_orphan', route='LF', defines=['REGISTRY'], target='context_list::orphan + destroy', source=TDH),
+        Job('registry.list.push_front', C, 'h_clist_push_front', route='LF', defines=['REGISTRY'], target='context_list::push_front', source=TDH),
+        Job('registry.register_with', C, 'h_register_with', route='LF', defines=['REGISTRY'], target='task_group_context_impl::register_with -> context_list::push_front', source=TG),
+        Job('registry.destroy', C, 'h_tgc_destroy', route='LF', defines=['REGISTRY'], target='task_group_context_impl::destroy -> context_list::remove -> destroy', source=TG),
+        Job('lifetime.initialize', C, 'h_tgc_initialize', route='LF', defines=['REGISTRY'], target='task_group_context_impl::initialize', source=TG),
+        Job('lifetime.reset', C, 'h_tgc_reset', route='LF', defines=['REGISTRY'], target='task_group_context_impl::reset, is_group_execution_cancelled', source=TG),
         Job('bind.one_binder', C, 'h_bind_to', route='RG', defines=['BINDTO'], target='task_group_context_impl::bind_to (state word created->locked->bound|isolated)', source=TG),
     ]
     return {
@@ -197,7 +356,48 @@ def replay_f6(ctx):
     return rep
 
 
+def replay_path(ctx, failure):
+    """single-threaded white-box recipe: a hand-linked chain of real contexts registered in the thread's real list, public cancel on one entry"""
+    exe = native.build([os.path.join(HERE, 'c04_replay_path.cpp')], os.path.join(ctx.work, 'c04_replay_path'), link_tbb=True, flags=['-fno-access-control'], includes=[os.path.join(ctx.repo, 'src')])
+    ins = (failure or {}).get('inputs') or {}
+    runs = []
+    if ins.get('IN_n'):
+        runs.append([exe, str(ins.get('IN_n')), str(ins.get('IN_s', 0)), str(ins.get('IN_st0', 0))])
+    runs.append([exe, 'search'])
+    rep = {'reproduced': False, 'detail': 'native chains (counterexample inputs, then boundary search): every descendant of the cancelled context ended cancelled, nothing else was marked', 'runs': []}
+    for cmd in runs:
+        rc, out = native.run(cmd, timeout=120)
+        rep['runs'].append({'cmd': ' '.join(cmd), 'rc': rc, 'output': out[-800:]})
+        m = re.search(r'(?m)^REPRODUCED (.*)', out)
+        if m:
+            w = re.search(r'class=(\S+)', m.group(1))
+            rep.update(reproduced=True, detail=m.group(1), witness_class=w.group(1) if w else '')
+            break
+    return rep
+
+
+def replay_registry(ctx):
+    """single-threaded white-box recipe on the real r1::context_list with interposed allocation functions: the list is freed exactly once, unlocked, by the right operation"""
+    exe = native.build([os.path.join(HERE, 'c04_replay_registry.cpp')], os.path.join(ctx.work, 'c04_replay_registry'), link_tbb=True, flags=['-fno-access-control'], includes=[os.path.join(ctx.repo, 'src')])
+    rc, out = native.run([exe], timeout=120)
+    rep = {'reproduced': False, 'detail': 'native orphan/remove sequences on the real context_list: every list freed exactly once, unlocked', 'runs': [{'cmd': exe, 'rc': rc, 'output': out[-800:]}]}
+    m = re.search(r'(?m)^REPRODUCED (.*)', out)
+    if m:
+        w = re.search(r'class=(\S+)', m.group(1))
+        rep.update(reproduced=True, detail=m.group(1), witness_class=w.group(1) if w else '')
+    return rep
+
+
 def replay(ctx, jobname, failure):
+    if jobname.startswith('propagate.path'):
+        return replay_path(ctx, failure)
+    if jobname.startswith('registry.list.') or jobname == 'registry.destroy':
+        rep = replay_registry(ctx)
+        if rep.get('reproduced') or jobname != 'registry.destroy':
+            return rep
+        return replay_path(ctx, None)       # a context that is not unregistered / a cancellation that reaches a wrong set: chains of real contexts in the thread's real list
+    if jobname == 'registry.register_with':
+        return replay_path(ctx, None)
     if jobname.startswith('bind.no_missed_cancel'):
         return replay_f6(ctx)
     if not (jobname.startswith('walk.') or jobname == 'bind.grand_ancestor'):
